@@ -19,22 +19,25 @@ Definition wk_holds (p : wpc) : bool :=
    hands the channel over (add_task) or gives it up (requests cleared / nothing left / not connected) *)
 Definition active (p : wpc) : bool :=
   match p with
-  | WPopped | WSvc0 _ _ | WSvc1 _ _ _ | WTask _ _ | WClose1 _ | WClose2 _
+  | WPopped | WSvc0 _ _ | WSvc1 _ _ _ | WSvc1b _ _ _ | WTask _ _ | WClose1 _ | WClose2 _
   | WKeep1 _ | WKeep2 _ | WKeep3 _ | WKeepAdd _ => true
   | _ => false
   end.
 (* ... and the request it serves is still in [requests] *)
 Definition prepop (p : wpc) : bool :=
   match p with
-  | WPopped | WSvc0 _ _ | WSvc1 _ _ _ | WTask _ _ | WClose1 _ | WClose2 _ | WKeep1 _ | WKeepAdd _ => true
+  | WPopped | WSvc0 _ _ | WSvc1 _ _ _ | WSvc1b _ _ _ | WTask _ _ | WClose1 _ | WClose2 _ | WKeep1 _
+  | WKeepAdd _ => true
   | _ => false
   end.
 (* the worker is about to create a dispatcher entry / to enter service() *)
 Definition starter (p : wpc) : bool := match p with WKeepAdd _ | WPopped => true | _ => false end.
 Definition at_close2 (p : wpc) : bool := match p with WClose2 _ => true | _ => false end.
-(* service() entered after a covered decision, application not yet (and never) called *)
+(* service() entered after a decision, before its read of connected / of will_close *)
 Definition late_early (p : wpc) : bool :=
   match p with WSvc0 _ true | WSvc1 _ true _ => true | _ => false end.
+Definition late_b (p : wpc) : bool :=
+  match p with WSvc1b _ true _ => true | _ => false end.
 
 (* the I/O thread is about to create a dispatcher entry *)
 Definition tokio (s : state) : Prop :=
@@ -69,8 +72,9 @@ Record Inv (s : state) : Prop := mkInv {
   i_appx : io s = IoRCappX -> reqs s = [];
   i_mret : mret s = IoTop \/ mret s = IoSel;
   i_cwf : (cwf s = true \/ io s = IoHW1b \/ io s = IoHW2 \/ io s = IoHW3) -> gdec s = true;
-  i_safe : gdec s = true -> conn s = false \/ Closed s \/ sd s = SdC2;
-  i_late : forall w, late_early (wk s w) = true -> conn s = false
+  i_safe : gdec s = true -> conn s = false \/ Closed s \/ wc s = true;
+  i_late : forall w, late_early (wk s w) = true -> conn s = false \/ wc s = true;
+  i_late_b : forall w, late_b (wk s w) = true -> wc s = true
 }.
 
 (* ---- tactics ------------------------------------------------------------------------ *)
